@@ -21,3 +21,8 @@ Inductive shape_ok := AsPinned.
 Inductive dry_guard :=
 | DryGuarded     (* the file is written only under `if not dry_run:` *)
 | DryIgnored.    (* the file is written unconditionally *)
+
+(** setupcfg_writer.py, SetupCfgWriter.add_to_file: the lines handed to build_new_lines. *)
+Inductive cfg_last_line :=
+| LastLineAsIs          (* pinned: f.readlines() as read; a last line without newline stays unterminated *)
+| LastLineTerminated.   (* repair: `if original_lines and not original_lines[-1].endswith("\n"): original_lines[-1] += "\n"` *)
